@@ -36,7 +36,7 @@ def gendoc(rng, depth=0, dflt=None):
     if depth == 0:
         # a third of the documents declare a default namespace on the root (so that context nodes are namespaced
         # without a prefix); inside those some elements undeclare it again
-        dflt = rng.choice([None, None, "d"])
+        dflt = rng.choice([None, None, None, "d", "d", "http://www.w3.org/1999/xhtml"])
     attrs = ""
     for an in ["x", "y"]:
         if rng.random() < 0.4:
@@ -378,7 +378,7 @@ def css_cases(run: Run, stream, n):
     sels = ["a", "a b", "a > b", "a, b", "*", "a[x]", 'a[x="1"]', "a b c", "a > b > c", "b, c > a", "c[y]", 'b[y="ab"]']
     for _ in range(n):
         # no namespaces at all in this stream: cssselect's translation has no notion of delb's default namespace
-        xml = gendoc(run.rng).replace("p:", "").replace(' xmlns="u"', "").replace(' xmlns="d"', "").replace(' xmlns=""', "")
+        xml = re.sub(r' xmlns(:p)?="[^"]*"', "", gendoc(run.rng)).replace("p:", "")
         sel = run.rng.choice(sels)
         case = {"xml": xml, "css": sel}
         run.case(stream, case, True)
